@@ -4,6 +4,7 @@
  */
 #ifndef CONTRACTS_SYNC_H
 #define CONTRACTS_SYNC_H
+#include "contracts/fsm_client.h"
 
 struct sync_ghost {
 	unsigned int store_calls; /* calls of rtr_sync_receive_and_store_pdus */
@@ -92,7 +93,8 @@ __CPROVER_assigns(rtr_socket->version, rtr_socket->state, g_gh.errpdu_calls);
  */
 #define STORE_FRAME_POST(r, s, O)                                                                      \
 	(((r) == 0 || (r) == -1) && (s)->session_id == O((s)->session_id) && (s)->version <= O((s)->version) && \
-	 (s)->last_update == O((s)->last_update) &&                                                    \
+	 (s)->last_update == O((s)->last_update) && ((s)->state == O((s)->state) || STATE_IS_ERR((s)->state)) && \
+	 ((r) == 0 ? (s)->state == O((s)->state) : 1) &&                                               \
 	 (((s)->version < O((s)->version) && O((s)->has_received_pdus)) ? ((r) == -1 && (s)->state == RTR_FAST_RECONNECT && g_gh.errpdu_calls > 0) : 1) && \
 	 ((r) == 0 ? ((s)->serial_number == g_gh.eod_sn && (s)->request_session_id == O((s)->request_session_id) && !(s)->is_resetting && g_gh.store_ok) \
 		   : ((s)->serial_number == O((s)->serial_number) && ((s)->request_session_id == O((s)->request_session_id) || (s)->request_session_id) && !g_gh.store_ok)))
@@ -104,5 +106,7 @@ __CPROVER_assigns(rtr_socket->serial_number, rtr_socket->request_session_id, rtr
 		  rtr_socket->version, rtr_socket->has_received_pdus, rtr_socket->refresh_interval, rtr_socket->expire_interval,
 		  rtr_socket->retry_interval, g_gh.store_calls, g_gh.eod_sn, g_gh.store_ok, g_gh.err_reports, g_gh.last_err_code,
 		  g_gh.errpdu_calls, __CPROVER_object_whole(&g_env));
+
+#include "contracts/fsm_client.h"
 
 #endif
